@@ -178,3 +178,39 @@ def kf_moddate_no_zid(struct_i: int, a_cont: int, ids_i: int) -> bool:
         ob = deep_realize(ob)
         ok, _why = cm.judge(ob)
     return V(ok)
+
+
+ZID_ALPHA = "".join(ch for ch in "0123456789ABCDEFGHIJKLMNOPQRSTUVWXYZabcdefghijklmnopqrstuvwxyz"
+                    if ch not in "IOQSgijlpqy")
+
+
+def create_suffix(c: str, carry: bool) -> bool:
+    """
+    pre: len(c) == 1 and c in ZID_ALPHA
+    pre: not (carry and c == "z")
+    post: _
+    """
+    # whatever suffix is stored as next for today's date (one symbolic character, with and without a
+    # carry into it), the two ZIDs handed out to two new notes land in the file in a form the
+    # compiler recognises again (index == recompiled file)
+    stored = (c + "z") if carry else ("0" + c)
+    old_lines = cm.build(0, 0, 0, 1)
+    fs = hx.FakeFS({"/z/p.zo": "\n".join(old_lines)})
+    fs.files["/z/.zorg/next_ids.json"] = hx._JsonBlob({"240510": stored})
+    zdir = hx.FakePath("/z", fs)
+    ppath = hx.FakePath("/z/p.zo", fs)
+    with NoTracing():
+        page = compile_text("\n".join(old_lines), ppath)
+    repo, _sess = make_repo(zdir)
+    repo.add_file(page)
+    for ev in list(page.events):
+        for handler in mb.EVENT_HANDLERS[type(ev)]:
+            handler(ev, None)
+    new_text = fs.files["/z/p.zo"]
+    mem = [cm.note_view(n) for n in page.notes]
+    with NoTracing():
+        new_text = deep_realize(new_text)
+        mem = deep_realize(mem)
+        rec = [cm.note_view(n) for n in compile_text(new_text, ppath).notes]
+        ok = mem == rec and all(m["zid"] for m in rec) and len({m["zid"] for m in rec}) == len(rec)
+    return V(ok)
